@@ -4,6 +4,7 @@
   ./check selftest sensitivity [mutant-name-prefix ...]
   ./check selftest regressions
   ./check selftest seeded            (runs the checks against /verif/seeded/*)
+  ./check selftest benign            (property-preserving changes: no alarm allowed)
 
 determinism: N plans per property are generated and evaluated (a) in the
 worker pool, (b) again in the pool in reversed order (other worker
@@ -254,12 +255,47 @@ def cmd_seeded(args):
     return 1 if missed else 0
 
 
+def cmd_benign(args):
+    """Applies every /verif/benign/<id>/patch.diff (a property-preserving
+    change written by an independent sub-agent) to a scratch copy and runs all
+    five quick checks; every one must exit 0."""
+    alarms = []
+    for d in sorted(glob.glob(os.path.join(core.VERIF, 'benign', '*'))):
+        name = os.path.basename(d)
+        if args and not any(name.startswith(a) for a in args):
+            continue
+        tmp = tempfile.mkdtemp(prefix='yalafi-benign-')
+        try:
+            os.makedirs(tmp + '/repo')
+            shutil.copytree('/repo/yalafi', tmp + '/repo/yalafi',
+                            ignore=shutil.ignore_patterns('__pycache__'))
+            p = subprocess.run(['patch', '-p1', '-s', '-d', tmp + '/repo', '-i',
+                                d + '/patch.diff'],
+                               stdout=subprocess.PIPE, stderr=subprocess.STDOUT)
+            if p.returncode != 0:
+                print('%s: patch does not apply: %s' % (name, p.stdout.decode()[-300:]))
+                alarms.append(name + ' (patch)')
+                continue
+            for pid in PIDS:
+                rc, out = run_check_on(pid, tmp + '/repo', tmp + '/evidence',
+                                       budget=os.environ.get('VERIF_BUDGET_S', '150'))
+                print('%-46s %s exit %d' % (name, pid, rc))
+                if rc != 0:
+                    alarms.append('%s/%s' % (name, pid))
+                    print(out[-1200:])
+        finally:
+            shutil.rmtree(tmp, ignore_errors=True)
+    print('benign: alarms: %s' % alarms)
+    return 1 if alarms else 0
+
+
 def main(args):
     if not args:
         print(__doc__)
         return 2
     cmd = {'determinism': cmd_determinism, 'sensitivity': cmd_sensitivity,
            'regressions': cmd_regressions, 'seeded': cmd_seeded,
+           'benign': cmd_benign,
            '_digests': cmd_digests}.get(args[0])
     if cmd is None:
         print(__doc__)
